@@ -16,7 +16,8 @@ the model is run with exactly that order (`follow`), so both sides execute the s
 (events and the `# T<k> call/ret/leave` annotations of the harness); it never consults the model.
 
 Oracle kinds (C04): wrong-thread, order, exec-context, inline-first, lost-wakeup, task-dropped, drain-on-exit
-Oracle kinds (C05): quit-ignored, quit-lost, loop-returned-without-quit, uaf-dtor, uaf, startloop, startloop-hang,
+Oracle kinds (C05): quit-ignored, quit-lost, loop-returned-without-quit, uaf-dtor, uaf, startloop (wrong pointer,
+                    NULL for a live loop), startloop-hang (also: waiting for a loop that is already gone),
                     join, join-hang, deadlock
 both: crash, trace
 """
@@ -268,7 +269,10 @@ def oracle(prog, lines):
                 if c.kind == "destroy" and started and not joined:
                     fail("join", "~EventLoopThread returned without having joined the thread it started")
                 if c.kind == "startLoop" and (len(w) < 5 or w[4] != "ok"):
-                    fail("startloop", "startLoop() returned %s instead of the loop constructed by the new thread" % (w[4] if len(w) > 4 else "?"))
+                    # NULL is the right answer exactly when the loop has already come and gone
+                    if not (len(w) > 4 and w[4] == "null" and destroyed):
+                        fail("startloop", "startLoop() returned %s instead of the loop constructed by the new thread"
+                             % (w[4] if len(w) > 4 else "?"))
                 wake_check()
             elif w[2] == "leave":
                 if not depth or depth[-1] != int(w[3]):
@@ -387,6 +391,11 @@ def oracle(prog, lines):
             started = True
             if not published:
                 fail("startloop", "startLoop() returned before the new thread published its loop")
+        elif what == "started null":
+            started = True
+            if not destroyed:
+                fail("startloop", "startLoop() returned NULL although the new thread's loop %s"
+                     % ("is published and alive" if published else "is still to come"))
         elif what == "joined":
             joined = True
             if not destroyed:
@@ -472,7 +481,10 @@ def gen_plain(rng, size=None):
 def gen_elt(rng):
     """EventLoopThread: T0 = startLoop, submissions, (destroy); T1 = the loop thread, `pre` = its init callback.
     A task that calls quit() is reachable only through a `p` (pipe) of T0 after which T0 does not touch the loop
-    except through the destructor (anything else would be a use-after-free of the caller's making)."""
+    except through the destructor (anything else would be a use-after-free of the caller's making) — or the loop is
+    quit early (gen_elt_early_quit) and T0 never uses the pointer."""
+    if rng.random() < 0.15:
+        return gen_elt_early_quit(rng)
     p = Prog()
     p.mode = "elt"
     nt = rng.choice([2, 3, 4, 5])
@@ -489,6 +501,31 @@ def gen_elt(rng):
         body += _subs(rng, rng.choice([0, 0, 1]), ids, "p")
     prog = ["startLoop"] + body
     if rng.random() < 0.85:
+        prog.append("destroy")
+    p.threads[0] = prog
+    return p
+
+
+def gen_elt_early_quit(rng):
+    """the loop is quit from the thread-init callback or from a functor / handler it set going: startLoop() may see
+    the loop, or find it gone (NULL); the owner does not touch the pointer (it may dangle), only the destructor"""
+    p = Prog()
+    p.mode = "elt"
+    nt = rng.choice([2, 3, 4])
+    for i in range(nt, 0, -1):
+        higher = list(range(i + 1, nt + 1))
+        p.tasks[i] = _subs(rng, rng.choice([0, 0, 1, 2]), higher)
+    ids = list(range(1, nt + 1))
+    p.pre = _subs(rng, rng.choice([0, 1, 2]), ids)
+    where = rng.random()
+    if where < 0.4 or not p.pre:
+        p.pre.insert(rng.randrange(0, len(p.pre) + 1), "quit")
+    else:
+        # a task reachable from the init callback quits
+        t = int(rng.choice(p.pre)[1:])
+        p.tasks[t].insert(rng.randrange(0, len(p.tasks[t]) + 1), "quit")
+    prog = ["startLoop"] + _subs(rng, rng.choice([0, 0, 1]), ids, "p")
+    if rng.random() < 0.8:
         prog.append("destroy")
     p.threads[0] = prog
     return p
@@ -555,6 +592,17 @@ def sweeps():
             p.threads[0] = ["startLoop", "destroy"]
             p.follow = [1] * 3 + [0] * (i % 6) + [1] * (3 + i) + [0] * 10 + [1] * 40 + [0] * 4
             out.append(("sweep-destroy", p))
+    # the loop is quit before startLoop() has returned: by the init callback, by a functor it queued, by a handler
+    for pre, tasks in ((["quit"], {1: []}), (["q1"], {1: ["quit"]}), (["p1"], {1: ["quit"]}), (["q1", "quit"], {1: []})):
+        for i in range(0, 18):
+            for tail in ([], ["destroy"]):
+                p = Prog()
+                p.mode = "elt"
+                p.tasks = {k: list(v) for k, v in tasks.items()}
+                p.pre = list(pre)
+                p.threads[0] = ["startLoop"] + tail
+                p.follow = [1] * i + [0] * 8 + [1] * 40 + [0] * 6
+                out.append(("sweep-early-quit", p))
     # the loop quits itself (pipe handler) while the owner destroys the EventLoopThread
     for i in range(0, 24):
         p = Prog()
@@ -627,6 +675,8 @@ def contexts(prog, impl):
         what = " ".join(w[1:])
         if w[1] == "exec":
             depth += 1
+        if what in ("started", "started null"):
+            seen.add("startLoop:" + ("null" if what.endswith("null") else "loop") + "@" + phase)
         if k == L:
             m = {"point loop:entry": "entered", "point loop:beforePoll": "inpoll", "point loop:afterPoll": "dispatch",
                  "point loop:afterFunctors": "between", "point loop:exit": "exiting", "returned": "returned",
@@ -930,6 +980,7 @@ def exhaustive_programs(which):
         sp.spurious = True     # startLoop()'s wait may be woken without a notification
         out.append(("start-use-destroy-spurious", sp, 2))
         out.append(("start-use-destroy", prog("elt", {1: []}, [], {0: ["startLoop", "q1", "destroy"]}), 2))
+        out.append(("init-callback-quits", prog("elt", {1: ["quit"]}, ["q1"], {0: ["startLoop", "destroy"]}), 3))
         out.append(("selfquit-vs-destroy", prog("elt", {1: ["quit"]}, [], {0: ["startLoop", "p1", "destroy"]}), 3))
     return out
 
